@@ -60,6 +60,9 @@ func cmdCheck(args []string) {
 	seed := 0
 	if s := os.Getenv("VERIF_SEED"); s != "" {
 		seed, _ = strconv.Atoi(s)
+		if seed < 0 {
+			seed = -(seed + 1)
+		}
 	}
 	if t := os.Getenv("VERIF_TIER"); t == "quick" || t == "thorough" {
 		if !flagSet(fs, "tier") {
@@ -200,6 +203,8 @@ func cmdCheck(args []string) {
 			if o.Status == "unsat" {
 				ev.Discharged++
 				fe.Discharged++
+				ev.CrossChecks += o.Cross
+				ev.CrossAgree += o.CrossAgree
 				solverCount[o.Solver]++
 				solverSecs[o.Solver] += o.Secs
 				continue
@@ -371,6 +376,8 @@ type evidence struct {
 	Violations       int
 	KnownCount       int
 	Replayed         int
+	CrossChecks      int
+	CrossAgree       int
 	VacuityChecks    int
 	Known            []string
 	Funcs            []funcEvidence
@@ -448,6 +455,8 @@ func writeEvidence(verifDir, prop, tier string, seed int, ev evidence) {
 		"known_findings_counted_in_discharged":  ev.KnownCount,
 		"vacuity_checks":                        ev.VacuityChecks,
 		"counterexamples_replayed_on_real_code": ev.Replayed,
+		"thorough_cross_checks":                 ev.CrossChecks,
+		"thorough_cross_checks_confirmed_unsat": ev.CrossAgree,
 		"load_and_typecheck_s":                  round3(ev.Load),
 		"explanation":                           "obligations are generated from the SSA of /repo's working tree on this run; each is one SMT query; see DESIGN.md",
 	}
